@@ -1032,7 +1032,8 @@ ADAPTORS_ELEMENTWISE = ("::map", "::for_each", "::filter_map", "::flat_map", "::
 def closures_of(facts, path):
     """paths of the closure bodies defined (directly or nested) inside function `path`"""
     pre = path + "::{closure"
-    return sorted(p for p, f in facts.fns.items() if p.startswith(pre) and f["kind"] == "Closure")
+    gone = getattr(facts, "consumed_closures", ())
+    return sorted(p for p, f in facts.fns.items() if p.startswith(pre) and f["kind"] == "Closure" and p not in gone)
 
 
 def closure_parent(facts, cpath):
